@@ -17,11 +17,11 @@ def mags(vals):
 
 def cfg(tier):
     if tier == "quick":
-        return dict(Keys=S("1|1", "2|1"), UnknownKeys=S("9|1", "1|9", "1|0"),
+        return dict(Keys=S("1|1", "2|1", "01|1"), UnknownKeys=S("9|1", "1|9", "1|0"),   # "01": the IMSI of "1" with leading zeros
                     Balances=mags([0, 5, P53 + 3]), Amounts=mags([0, 1, 5, 6, P32 + 1, P53 + 1, P63 - 1]),
                     MaxSteps=2, EmitOneIn=24, Forms=S("plain", "e164", "both"),
                     ActionSet=S("debit", "refund", "check", "enquiry"), TypeSet=S("initial", "update", "termination", "event")), 300
-    return dict(Keys=S("1|1", "2|1"), UnknownKeys=S("9|1", "1|9", "1|0"),
+    return dict(Keys=S("1|1", "2|1", "01|1"), UnknownKeys=S("9|1", "1|9", "1|0"),
                 Balances=mags([0, 1, 5, P31, P53 + 3, P63 - 1]),
                 Amounts=mags([0, 1, 4, 5, 6, P31 - 1, P31 + 1, P32, P53 + 1, P63 - 2, P63 - 1]),
                 MaxSteps=3, EmitOneIn=12000, Forms=S("plain", "e164", "both"),
@@ -41,7 +41,7 @@ def check(pid, tier, replay=None):
     consts.update(dev)
     # second slice: a smaller configuration whose whole labelled state graph goes to the runner, which builds a
     # signature-pair cover (which branch served the request x how amount and balance compare x did the balance move)
-    small = dict(consts, Balances=mags([0, 5, P53 + 3]), Amounts=mags([0, 1, 5, 6, P63 - 1]), MaxSteps=2 if tier == "quick" else 3,
+    small = dict(consts, Keys=S("1|1", "01|1"), Balances=mags([0, 5, P53 + 3]), Amounts=mags([0, 1, 5, 6, P63 - 1]), MaxSteps=2 if tier == "quick" else 3,
                  EmitOneIn=1)
     if tier != "quick":
         small.update(Balances=mags([0, 5]), Amounts=mags([0, 5, 6, P63 - 1]), ActionSet=S("debit", "refund", "check"))
